@@ -1,6 +1,7 @@
 package main
 
 import (
+	"os"
 	"fmt"
 	"go/ast"
 	"go/constant"
@@ -168,6 +169,7 @@ func runC10(p *Program, r *Report) {
 		return
 	}
 	var coercer *ssa.Function
+	byMap := false
 	stores := safeStores(fn, modulePath, "HTML")
 	if ok, why := returnsOnlyLocalComposite(fn, 0); !ok || len(stores) == 0 {
 		r.Undec("C10.R1", "safehtml.HTMLEscaped#returns", p.Pos(fn.Pos()), "unrecognised construction: "+why)
@@ -177,6 +179,14 @@ func runC10(p *Program, r *Report) {
 		c := fmt.Sprintf("safehtml.HTMLEscaped#store%d", i)
 		ok := calleeIs(e, "html.EscapeString") && len(e.Args) == 1 && e.Args[0].Op == "call" && e.Args[0].Fn != nil &&
 			len(e.Args[0].Args) == 1 && e.Args[0].Args[0].Op == "param" && e.Args[0].Args[0].Idx == 0
+		// the coercer written as one expression that the provenance view has inlined: strings.Map(f, text)
+		if !ok && calleeIs(e, "html.EscapeString") && len(e.Args) == 1 && calleeIs(e.Args[0], "strings.Map") {
+			if in, isIn := e.Args[0].Val.(ssa.Instruction); isIn && in.Parent() != nil && len(in.Parent().Params) == 1 {
+				coercer = in.Parent()
+				r.OK("C10.R1", c, p.Pos(st.Store.Pos()), "stored string is html.EscapeString("+fnName(coercer)+"(text))")
+				continue
+			}
+		}
 		if ok {
 			coercer = e.Args[0].Fn
 			r.OK("C10.R1", c, p.Pos(st.Store.Pos()), "stored string is "+e.String())
@@ -192,11 +202,41 @@ func runC10(p *Program, r *Report) {
 	if coercer == nil || coercer.Blocks == nil {
 		r.Undec("C10.R2", "coercer", "", "coercion function not identified")
 	} else {
-		tableGlobal = checkCoercer(p, r, pv, coercer)
+		// first the rules for the current spelling; if they do not recognise the loop, the coercion is read as a map
+		// on code points (which also decides the table clauses R3)
+		shape := NewReport("C10", r.Tier, r.Seed)
+		tableGlobal = checkCoercer(p, shape, pv, coercer)
+		if reportFails(shape) || tableGlobal == nil || os.Getenv("C10_FORCE_MAP") != "" {
+			alt := NewReport("C10", r.Tier, r.Seed)
+			if checkCoercerByMap(p, alt, coercer) && !reportFails(alt) {
+				r.Obls = append(r.Obls, alt.Obls...)
+				for k, v := range alt.Counts {
+					r.Counts[k] += v
+				}
+				byMap = true
+			} else {
+				if os.Getenv("C10_FORCE_MAP") != "" {
+					for _, o := range alt.Obls {
+						fmt.Printf("MAP %s %s %s: %s %s\n", o.Status, o.Rule, o.Construct, o.Detail, o.Witness)
+					}
+				}
+				r.Obls = append(r.Obls, shape.Obls...)
+				for k, v := range shape.Counts {
+					r.Counts[k] += v
+				}
+			}
+		} else {
+			r.Obls = append(r.Obls, shape.Obls...)
+			for k, v := range shape.Counts {
+				r.Counts[k] += v
+			}
+		}
 	}
 
 	// ---- R3 table --------------------------------------------------------
-	if tableGlobal == nil {
+	if byMap {
+		// decided with the map
+	} else if tableGlobal == nil {
 		r.Undec("C10.R3", "control-table", "", "table variable not identified")
 	} else {
 		init, pk := p.PkgVarInit("", tableGlobal.Name())
@@ -561,6 +601,62 @@ func checkHTMLConcat(p *Program, r *Report, pv *Prov) {
 		return
 	}
 	res, _ := stores[0].Store.Val.(*ssa.Call)
+	// the same concatenation written as strings.Join(xs, "") of a slice that holds, element by element and in
+	// order, the contents of the arguments
+	if res != nil && staticCallee(res.Common()) != nil && fnName(staticCallee(res.Common())) == "strings.Join" {
+		sep, okSep := constString(res.Common().Args[1])
+		ms, okMs := res.Common().Args[0].(*ssa.MakeSlice)
+		okLen := false
+		if okMs {
+			if sv, ok := isLenOf(ms.Len); ok && sv == ssa.Value(fn.Params[0]) {
+				okLen = true
+			}
+		}
+		nStores, okStores := 0, true
+		if okMs {
+			for _, ref := range *ms.Referrers() {
+				ia, ok := ref.(*ssa.IndexAddr)
+				if !ok {
+					if ref != ssa.Instruction(res) {
+						if _, dbg := ref.(*ssa.DebugRef); !dbg {
+							okStores = false
+						}
+					}
+					continue
+				}
+				for _, r2 := range *ia.Referrers() {
+					st, ok := r2.(*ssa.Store)
+					if !ok {
+						okStores = false
+						continue
+					}
+					nStores++
+					arg := pv.Of(st.Val)
+					// xs[i] = htmls[i].String(): same index on both sides
+					okArg := arg.Op == "field" && p.isWrappedFieldName(arg.Name) && arg.Args[0].Op == "index" && arg.Args[0].Args[0].Op == "param" && arg.Args[0].Args[0].Idx == 0
+					sameIdx := false
+					if u, ok := st.Val.(*ssa.Call); ok && len(u.Common().Args) == 1 {
+						if ld, ok := u.Common().Args[0].(*ssa.UnOp); ok {
+							if ia2, ok := ld.X.(*ssa.IndexAddr); ok && ia2.Index == ia.Index {
+								sameIdx = true
+							}
+						}
+					}
+					if !okArg || !sameIdx {
+						okStores = false
+					}
+				}
+			}
+		}
+		okJoin := okSep && sep == "" && okMs && okLen && okStores && nStores == 1
+		r.Check(okJoin, "C10.R5", cn+"#result", p.Pos(res.Pos()), "result is strings.Join(xs, \"\") of a slice as long as the argument list whose element i is the content of argument i", "result is a strings.Join that is not the concatenation of the arguments' contents in order: "+pv.Of(stores[0].Store.Val).String())
+		if okJoin {
+			r.OK("C10.R5", cn+"#write", p.Pos(res.Pos()), "each element is written once, with the content of the argument of the same index")
+			r.OK("C10.R5", cn+"#writes", p.Pos(fn.Pos()), "exactly one write site, inside the range loop")
+			r.OK("C10.R5", cn+"#order", p.Pos(fn.Pos()), "strings.Join keeps index order")
+		}
+		return
+	}
 	if res == nil || staticCallee(res.Common()) == nil || fnName(staticCallee(res.Common())) != "(*bytes.Buffer).String" {
 		r.Viol("C10.R5", cn+"#result", p.Pos(stores[0].Store.Pos()), "result is not the buffer's contents: "+pv.Of(stores[0].Store.Val).String(), "")
 		return
